@@ -249,7 +249,7 @@ pub fn run(rep: &Report) {
         common::enumerate(rep, "sequences", total, 8192, &|i, l| {
             let mut toks = Vec::with_capacity(len);
             refmodel::gen::nth_sequence(&base, len, i, &mut toks);
-            if i % 400_009 == 0 {
+            if i % 400_009 == 77_777 {
                 l.sample(2, || json!(tok::render_spaced(&toks)));
             }
             check_tokens(&toks, l)
